@@ -18,7 +18,7 @@ from __future__ import annotations
 
 import ast
 
-from .. import cfg
+from .. import cfg, inline
 from .. import configfacts as CF
 from ..facts import UNKNOWN, call_name, dotted, norm
 from ..linters import Linters
@@ -85,6 +85,11 @@ def check(run, ctx):
             continue
         if cq.startswith(f"{ORCH}.Orchestrator."):
             v = _finalize_after_loop(f)
+            if v is not True and f.name.startswith("_") and "no finalize()" in str(v):
+                # a private helper that only runs the per-file loop: every method calling it must finalize after the call
+                users = sorted({s_["caller"] for s_ in cg.sites_calling(cq, ("call",))})
+                vs = {u: _finalize_after_loop(repo.funcs[u], loop_calls=(f.name,)) for u in users if u in repo.funcs}
+                v = True if vs and all(x is True for x in vs.values()) else (f"{f.name} runs the per-file loop; " + "; ".join(f"{u.rsplit('.', 1)[-1]}: {x}" for u, x in vs.items() if x is not True) if vs else v)
             if v is True:
                 run.ok(S2, cq.replace("src.", "", 1), "for f in files: lint_file(f); then for rule in registry.list_all(): violations.extend(rule.finalize())")
             else:
@@ -290,7 +295,7 @@ def check(run, ctx):
     S5 = run.rule("S5", "constant non-section metadata keys read by rules are written by Orchestrator.lint_file", floor=2)
     lf_f = repo.func(lf)
     written = set()
-    for n in ast.walk(lf_f.node):
+    for n in inline.flat_nodes(repo, lf_f):   # the metadata dict may be built by a private helper
         if isinstance(n, ast.Dict):
             written |= {k.value for k in n.keys if isinstance(k, ast.Constant) and isinstance(k.value, str)}
     if "_project_root" in written:
@@ -327,7 +332,6 @@ S6_EXEMPT = {
     ("src.core.registry.RuleRegistry", "_rules"): "registration API: rule id -> rule object, filled by the one-time discovery; holds no per-file data",
     ("src.linters.dry.block_filter.BlockFilterRegistry", "_filters"): "registration API, filled once when the registry is built",
     ("src.linters.dry.block_filter.BlockFilterRegistry", "_enabled_filters"): "configuration API (enable/disable), not per-file state",
-    ("src.linters.dry.inline_ignore.InlineIgnoreParser", "_ignore_ranges"): "accumulates over the files of one run by design; emptied by DRYRule.finalize through clear() (decided by S1)",
 }
 
 
@@ -382,6 +386,14 @@ def _pure_memo(target: ast.Subscript, value: ast.expr) -> bool:
         return False
     rest = list(value.args[1:]) + [k.value for k in value.keywords]
     return not any(isinstance(x, ast.Name) for r in rest for x in ast.walk(r) if not (isinstance(x, ast.Name) and x.id in ("re",)))
+
+
+def _finalize_reach(cg, L):
+    cache = getattr(cg, "_fin_reach", None)
+    if cache is None:
+        roots = [r.finalize.qual for r in L.rules if r.finalize is not None]
+        cache = cg._fin_reach = set(cg.reach(roots))
+    return cache
 
 
 def _s6(run, ctx, L, S6):
@@ -478,7 +490,19 @@ def _s6(run, ctx, L, S6):
                     if isinstance(n, ast.AugAssign) and isinstance(n.target, ast.Attribute) and isinstance(n.target.value, ast.Name) and n.target.value.id == "self":
                         acc.setdefault(n.target.attr, f"{m.name}:{n.lineno} augmented assignment")
             sym = f"{cq.replace('src.', '', 1)}.{e.name}"
-            bad = {a: w for a, w in acc.items() if a not in reb and (cq, a) not in S6_EXEMPT}
+            # an attribute that accumulates over the files of one run by design is fine when the class offers a method that
+            # empties it and a rule's finalize() reaches that method (whatever attribute and method are called)
+            fin_reach = _finalize_reach(cg, L)
+            def emptied_by_finalize(attr):
+                for mm in cl.methods.values():
+                    resets = any((isinstance(n_, ast.Assign) and any(isinstance(t_, ast.Attribute) and t_.attr == attr and isinstance(t_.value, ast.Name) and t_.value.id == "self" for t_ in n_.targets))
+                                 or (isinstance(n_, ast.Call) and isinstance(n_.func, ast.Attribute) and n_.func.attr == "clear" and isinstance(n_.func.value, ast.Attribute) and n_.func.value.attr == attr)
+                                 for n_ in ast.walk(mm.node))
+                    if resets and mm.name != "__init__" and mm.qual in fin_reach:
+                        return mm.name
+                return None
+            by_fin = {a: emptied_by_finalize(a) for a in acc if a not in reb}
+            bad = {a: w for a, w in acc.items() if a not in reb and (cq, a) not in S6_EXEMPT and not by_fin.get(a)}
             exempt = [a for a in acc if (cq, a) in S6_EXEMPT and a not in reb]
             if bad:
                 for a, w in sorted(bad.items()):
@@ -596,10 +620,13 @@ def _must_resets(repo, r, f, depth, stack, top=False):
 
 
 # --------------------------------------------------------------------------- S2 helpers
-def _finalize_after_loop(f):
+def _finalize_after_loop(f, loop_calls=()):
     body = body_without_doc(f)
     loop_i = fin_i = None
     for i, st in enumerate(body):
+        if loop_calls and not isinstance(st, (ast.For, ast.While)) and any(is_call_named(n, *loop_calls) for n in ast.walk(st)) and loop_i is None:
+            loop_i = i   # the per-file loop lives in a private helper called here
+            continue
         if isinstance(st, ast.For) and any(is_call_named(n, "lint_file") for n in ast.walk(st)):
             loop_i = i
             if any(is_call_named(n, "finalize") for n in ast.walk(st)):
